@@ -235,7 +235,7 @@ class C16(HsProp):
 class C17(HsProp):
     id = 'C17'
     rule = ('valid and invalid heads x segmentations (whole, every line boundary, every byte of the first line, last bytes, random 2..40 pieces) x WouldBlock before any read/write/flush '
-            'x partial write sizes; valid heads completed exactly by the read that trips a guard (65th small read, the read crossing 64 KiB) and one read earlier; endless/oversized heads (1/127/128/200/4096-byte drip, 125+ headers, no terminator); parser assumptions P1-P3 on every prefix (TP); attack-check arithmetic (AC)')
+            'x partial write sizes; valid heads completed exactly by the read that trips a guard (65th small read, the read crossing 64 KiB) and one read earlier; endless/oversized heads (1/127/128/200/4096-byte drip, 125+ headers, no terminator); parser assumptions P1-P3 on every prefix (TP); attack-check arithmetic (AC); ReadBuffer<1|4|8|4096> under random read/advance/observe sequences against a plain FIFO (RB)')
     level_text = 'DoS-guard arithmetic, bounded rounds, write exactness and resumption proved on the machine model for any parser; segmentation invariance under parser hypotheses P1-P2'
     level_note = 'Trusted: Coq kernel, Handshake.v, parser hypotheses P1-P3 (tested), correspondence generators'
     def generate(self, tier, rng):
@@ -334,6 +334,26 @@ class C17(HsProp):
                 chunks.append(long_[pos:pos + sz]); pos += sz
             out.append(gen_hs.hs_case('mix%d' % k, 'none', ['r'], gen_hs.rds_of(chunks), [], [])); k += 1
             out.append('AC acm%d %s' % (k, ','.join(map(str, sizes)))); k += 1
+        # src/buffer.rs ReadBuffer<CHUNK> directly: reads (at most CHUNK bytes each), advances, observations, into_vec
+        for i in range(150 if quick else 3000):
+            cs = rng.choice([1, 4, 8, 4096])
+            part = bytes(rng.randrange(256) for _ in range(rng.choice([0, 0, 1, 5, 20])))
+            nchunks = rng.randint(0, 5)
+            rds = []
+            for _ in range(nchunks):
+                r_ = rng.random()
+                if r_ < 0.7: rds.append('d:' + hx(bytes(rng.randrange(256) for _ in range(rng.choice([1, 2, 3, 4, 5, 8, 9, 17, 100])))))
+                elif r_ < 0.8: rds.append('e:wb')
+                elif r_ < 0.9: rds.append(rng.choice(['e:reset', 'e:intr', 'e:other']))
+                else: rds.append('eof')
+            ops = []
+            for _ in range(rng.randint(1, 14)):
+                r_ = rng.random()
+                if r_ < 0.4: ops.append('rf')
+                elif r_ < 0.65: ops.append('ad:%d' % rng.choice([0, 1, 2, 3, 5, 8, 30]))
+                elif r_ < 0.85: ops.append('ch')
+                else: ops.append('rm')
+            out.append('RB rb%d %d %s %s %s' % (k, cs, hx(part) if part else '-', ','.join(ops), ','.join(rds) if rds else '-')); k += 1
         # parser assumption tests on every prefix
         for tag, head in (('req', good), ('req', junk), ('resp', resp.replace(gen_hs.ACCEPT_MARK, b'x' * 28))):
             step = 1 if not quick else 3
@@ -351,6 +371,8 @@ class C17(HsProp):
     model_only_kinds = ('AC',)
     def monitor(self, case_line, trace, mline):
         kind = case_line.split(' ')[0]
+        if kind == 'RB':
+            return monitors_hs.mon_readbuf(case_line, trace)
         if kind in ('HS', 'HC'):
             v = monitors_hs.mon_c17(case_line, trace) or monitors_hs.mon_no_panic(trace)
             if not v and kind == 'HC':
